@@ -1,7 +1,8 @@
 //! C10 — one notion of truth; conditionals and logic evaluate only what they must.
 
 use crate::checks::c01::{Got, Verdict, run_real};
-use crate::checks::hostrun::judge_hosted;
+use crate::checks::hostrun::{judge_hosted, run_hosted};
+use crate::model::hosts::Call;
 use crate::engine::core::*;
 use crate::engine::tape::fnv;
 use crate::model::astgen::{self, Alphabet};
@@ -94,6 +95,64 @@ pub fn hosts() -> Vec<(&'static str, HostState)> {
     vec![("resolves-none", s(&[])), ("resolves-u", s(&["u"])), ("resolves-v-w", s(&["v", "w"])), ("resolves-all", s(&["u", "v", "w"]))]
 }
 
+/// number of chain shapes: n = 2..=5 elements, each conditional or bare, each condition true or false, `?>` or `!>`,
+/// four contexts
+pub fn chain_shape_count() -> u64 {
+    (2..=5u32).map(|n| (1u64 << n) * (1u64 << n)).sum::<u64>() * 2 * 4
+}
+
+/// (source, arm identifiers in order, index of the arm a well-formed chain selects (None = no arm), well-formed?)
+pub fn chain_shape(i: u64) -> (String, Vec<String>, Option<usize>, bool) {
+    let context = (i % 4) as usize;
+    let negated = (i / 4) % 2 == 1;
+    let mut r = i / 8;
+    let mut n = 2u32;
+    loop {
+        let block = (1u64 << n) * (1u64 << n);
+        if r < block {
+            break;
+        }
+        r -= block;
+        n += 1;
+    }
+    let kinds = r >> n;
+    let truths = r & ((1 << n) - 1);
+    let mut parts = vec![];
+    let mut arms = vec![];
+    let mut selected = None;
+    let mut well_formed = true;
+    for k in 0..n as usize {
+        let conditional = (kinds >> k) & 1 == 1;
+        let truth = (truths >> k) & 1 == 1;
+        if conditional {
+            // the arm runs when `truth`: with `!>` the condition is written the other way round
+            let cond = if truth != negated { "$?" } else { "$!" };
+            parts.push(format!("{} {} a{}", cond, if negated { "!>" } else { "?>" }, k + 1));
+            arms.push(format!("a{}", k + 1));
+            if truth && selected.is_none() {
+                selected = Some(k);
+            }
+        } else {
+            parts.push(format!("d{}", k + 1));
+            arms.push(format!("d{}", k + 1));
+            if k + 1 != n as usize || k == 0 {
+                well_formed = false;
+            }
+            if selected.is_none() {
+                selected = Some(k);
+            }
+        }
+    }
+    let chain = parts.join(" |> ");
+    let src = match context {
+        0 => chain,
+        1 => format!("( {} ) + 1", chain),
+        2 => format!("{{ {} }} ~~", chain),
+        _ => format!("7, ( {} ), 8", chain),
+    };
+    (src, arms, selected, well_formed)
+}
+
 impl Check for C10Check {
     fn id(&self) -> &'static str {
         "C10"
@@ -105,7 +164,8 @@ impl Check for C10Check {
              Phase evaluation-traces: every AST with at most k nodes (k=6 quick, 7 thorough) over identifiers u, v, w, $?, $! and the operators `?>` `!>` `|>` `&&` `||` `^^` `!!` `??`, run under 4 recording hosts (resolving none / u / v,w / all identifiers to numbers; an unresolved identifier is unit, i.e. false): \
              the order and multiplicity of the host's resolve calls and the final value must equal the reference evaluator's (right operands only when the left does not decide, only the selected arm, chain conditions in order, at most one arm). \
              Phase written-operand-forms: {} operand forms written out in the source (literals of every kind, comparisons, logical results, nested expressions whose body is a test, applied expressions, conditionals, lists, ranges) in place of the tested value of every construct above; expected from the statically known truth of the form. \
-             Non-trivial = a truth-matrix or written-operand case, or a trace program in which the reference skips at least one identifier; distinct = distinct (program, host / value).",
+             Phase chain-shapes: every arrangement of 2..5 conditional (`?>` / `!>`, constant condition) and bare elements joined by `|>`, every truth pattern, in four contexts, arms being host-observable identifiers: whatever the pipeline accepts and runs evaluates at most one arm (also when a bare element stands before the end, which the builder is expected to reject), and a well-formed chain evaluates exactly the arm of its first true condition. \
+             Non-trivial = a truth-matrix or written-operand case, a chain shape that ran, or a trace program in which the reference skips at least one identifier; distinct = distinct (program, host / value).",
             truth_values().len(),
             CONSTRUCTS.len(),
             WRITTEN_FORMS.len()
@@ -119,6 +179,7 @@ impl Check for C10Check {
             Phase::exhaustive("truth-matrix", (truth_values().len() * CONSTRUCTS.len()) as u64).with_chunk(16),
             Phase::exhaustive("evaluation-traces", LOGIC.count_up_to(tier.pick(6, 7))).with_chunk(1024),
             Phase::exhaustive("written-operand-forms", (WRITTEN_FORMS.len() * written_constructs().len()) as u64).with_chunk(16),
+            Phase::exhaustive("chain-shapes", chain_shape_count()).with_chunk(64),
         ]
     }
     fn run(&self, tier: Tier, phase: usize, input: &Input, ctx: &mut CaseCtx) {
@@ -197,6 +258,45 @@ impl Check for C10Check {
                             }
                         }
                         other => ctx.fail(format!("truth-test-failed:{}:written-operand", construct), format!("{:?} on {}: {:?}", src, imp.name(), other)),
+                    }
+                }
+            }
+            (3, Input::Index(i)) => {
+                // every arrangement of conditional and bare elements in a chain, also the ones the language does not
+                // define (a bare element that is not last): whatever the pipeline accepts and runs must evaluate at
+                // most one arm, and for a well-formed chain exactly the one the first true condition selects
+                let (src, arms, selected, well_formed) = chain_shape(*i);
+                ctx.render(|| format!("{:?} ({})", src, if well_formed { "well-formed chain" } else { "a bare element before the end" }));
+                ctx.class(if well_formed { "chain-well-formed" } else { "chain-with-misplaced-default" });
+                let state = HostState::default();
+                for imp in Impl::BOTH {
+                    ctx.sub_evals += 1;
+                    let (got, log) = run_hosted(imp, &src, None, &V::Unit, &state, 3000);
+                    let evaluated: Vec<String> = log
+                        .iter()
+                        .filter_map(|c| match c {
+                            Call::Resolve(s) => arms.iter().find(|a| symbol_value(a) == *s).cloned(),
+                            _ => None,
+                        })
+                        .collect();
+                    match got {
+                        Got::Value(_) => {
+                            ctx.nontrivial(fnv(src.as_bytes()));
+                            if evaluated.len() > 1 {
+                                ctx.fail(
+                                    format!("chain-evaluates-more-than-one-arm:{}", if well_formed { "well-formed" } else { "misplaced-default-accepted" }),
+                                    format!("{:?} on {}: arms evaluated {:?}", src, imp.name(), evaluated),
+                                );
+                            } else if well_formed {
+                                // an else chain without default that selects nothing is the recorded C06 finding: not judged
+                                let expected: Vec<String> = selected.map(|k| vec![arms[k].clone()]).unwrap_or_default();
+                                if evaluated != expected {
+                                    ctx.fail("chain-evaluates-the-wrong-arm".to_string(), format!("{:?} on {}: arms evaluated {:?}, the first true condition selects {:?}", src, imp.name(), evaluated, expected));
+                                }
+                            }
+                        }
+                        Got::Rejected(..) => ctx.class("chain-rejected"),
+                        _ => ctx.class("chain-run-fails"),
                     }
                 }
             }
